@@ -12,6 +12,7 @@ import (
 	"strings"
 	"sync"
 	"sync/atomic"
+	"time"
 	"unicode/utf8"
 	"unsafe"
 
@@ -702,6 +703,34 @@ func c09Worker(w *W) {
 				st.evals++
 				w.Count("layout_key_value_checks", 1)
 			}
+		}
+		// the same kind of strings on their way OUT of the process: through the built-in Console appender onto a real
+		// descriptor, and through the built-in File / RollingFile appenders into real files - the bytes that arrive are the
+		// bytes the (checked) layouts produced; a sink may not rewrite, filter or re-escape them
+		{
+			var strs []string
+			for c := 0; c < 256; c++ {
+				if c%w.Spec.NShards == w.Spec.Shard || c == 0x7f || c == 0x1b {
+					strs = append(strs, "b"+string([]byte{byte(c)})+"e")
+				}
+			}
+			for r := rune(0x80); r <= 0xA0; r++ { // C1 controls, well-formed
+				strs = append(strs, "c1"+string(r)+"x")
+			}
+			strs = append(strs, "line\nbreak", "tab\there", "quote\"and\\backslash", "\u2028\u2029", "\xff\xfe", "\x1b[31mred\x1b[0m", "bell\a", "del\x7fend", "nul\x00byte", "\r\n")
+			mk := func() []*log.Event {
+				var evs []*log.Event
+				for i, sv := range strs {
+					evs = append(evs, &log.Event{Level: log.InfoLevel, Time: time.Unix(1_700_000_000+int64(i), 0).UTC(), File: "s.go", Line: i + 1, Tag: "c09", CtxString: sv,
+						Fields: []log.Field{log.String(sv, sv), log.Strings("l", []string{sv})}})
+				}
+				return evs
+			}
+			for _, m := range builtinFaithful(w.Spec.Dir, w.Spec.Name, 48, mk) {
+				w.Violate("C09:builtin-sink-alters-bytes", m.String(), map[string]any{"sink": m.Sink, "layout": m.Layout})
+			}
+			w.Count("strings_sent_through_the_builtin_sinks", int64(6*len(strs)))
+			w.Distinct("builtin-sinks")
 		}
 	}
 	w.Eval(st.evals)
